@@ -39,10 +39,10 @@ def handle (sx : Sexp) : String :=
       let m := match computeAvailable L with
         | .ok objs => s!"(ok {" ".intercalate (objs.map objStr)})"
         | .error .odx => "(err odx)"
-      let vis := ns.map fun n => match visible L n with
+      let vis := ns.map fun n => match visible odxRank L n with
         | some o => objStr o
         | none => s!"({n} none)"
-      s!"(model {m}) (spec (wf {tf (wfB L)}) (conflict {tf (conflict L)}) (vis {" ".intercalate vis}))"
+      s!"(model {m}) (spec (wf {tf (wfB L)}) (conflict {tf (conflict odxRank L)}) (vis {" ".intercalate vis}))"
     | _, _ => "(bad-args)"
   | _ => "(bad-op)"
 
